@@ -178,6 +178,7 @@ type WorldOpts struct {
 	Universe    int
 	OpDelayUs   int // random delay before each simulated directory operation
 	Image       map[string][]byte
+	HoldMergeIntro bool // park the merger at EventKindMergeTaskIntroductionStart until ReleaseMerge (or 3 s)
 }
 
 type World struct {
@@ -196,6 +197,8 @@ type World struct {
 	AsyncErrs []string
 	Observed  []Observation
 	afterRet  []afterRet
+	mergeGate chan struct{}
+	MergesHeld int
 }
 
 type afterRet struct {
@@ -288,6 +291,22 @@ func (w *World) config() bluge.Config {
 	if w.O.KeepN > 0 {
 		n := w.O.KeepN
 		ic.DeletionPolicyFunc = func() index.DeletionPolicy { return index.NewKeepNLatestDeletionPolicy(n) }
+	}
+	if w.O.HoldMergeIntro {
+		if w.mergeGate == nil {
+			w.mergeGate = make(chan struct{}, 64)
+		}
+		ic.EventCallback = func(e index.Event) {
+			if e.Kind == index.EventKindMergeTaskIntroductionStart {
+				w.mu.Lock()
+				w.MergesHeld++
+				w.mu.Unlock()
+				select {
+				case <-w.mergeGate:
+				case <-time.After(3 * time.Second):
+				}
+			}
+		}
 	}
 	ic.AsyncError = func(err error) {
 		w.mu.Lock()
@@ -873,4 +892,14 @@ func (w *World) DirImage() map[string][]byte {
 		return w.RDir.Image()
 	}
 	return w.Dir.Image()
+}
+
+// ReleaseMerge lets one parked merge introduction proceed.
+func (w *World) ReleaseMerge() {
+	if w.mergeGate != nil {
+		select {
+		case w.mergeGate <- struct{}{}:
+		default:
+		}
+	}
 }
